@@ -788,3 +788,50 @@ def last_foreach_program(draw):
         mid = bytes(draw(st.lists(st.sampled_from([b for b in pool if b != 0x7a]), min_size=n, max_size=n)))
         datas.append((b"a" if lead else b"") + mid + b"z")
     return prog, datas
+
+
+# ------------------------------------------------------------------------------------------------ focused family: append + yield on one transition, string too small
+
+@st.composite
+def yield_overflow_program(draw):
+    """try { s0 += <closed pattern>; yield Y0; ... } catch (outofspace) { <handler> } <tail> with a string that the pattern may or may not fit into:
+    at -O3 the yield rides on the transition of the pattern's last byte together with the append, so the byte that overflows is one for which the
+    pointer has already been moved on. Returns (program, inputs)."""
+    from . import ir as _ir
+    size = draw(st.integers(2, 4))
+    term = draw(st.booleans())
+    cap = size - 1 if term else size
+    plen = draw(st.sampled_from([cap + 1, cap + 1, cap + 1, cap, cap + 2, max(1, cap - 1)]))     # cap + 1: the last byte is the one that does not fit
+    word = b"abcdefgh"[:plen]
+    if draw(st.booleans()):
+        pat = ("lit", word, "str")
+    else:
+        pat = ("re", ("seq", tuple(("set", (("r", 0x61, 0x68),), False) for _ in range(plen))) if plen > 1 else ("set", (("r", 0x61, 0x68),), False), False)
+    after = draw(st.sampled_from([(("yield", "Y0"),), (("hook", "h0"), ("yield", "Y0")), (("yield", "Y0"), ("hook", "h0")),
+                                  (("yield", "Y0"), ("match", ("lit", b"-", "str")), ("yield", "Y1")), (("assign", "n0", ("num", 3, "dec")), ("yield", "Y0"))]))
+    hk = draw(st.sampled_from(["same-byte", "same-byte-more", "wait", "actions-only", "other-byte"]))
+    off = word[cap:cap + 1] or b"z"
+    if hk == "same-byte":
+        handler = (("match", ("lit", off, "str")), ("assign", "n0", ("num", 7, "dec")))
+    elif hk == "same-byte-more":
+        handler = (("match", ("lit", off + b"xy", "str")), ("assign", "n0", ("num", 7, "dec")), ("yield", "Y1"))
+    elif hk == "wait":
+        handler = (("wait", ("lit", b"!", "str")), ("assign", "n0", ("num", 7, "dec")))
+    elif hk == "actions-only":
+        handler = (("assign", "n0", ("num", 7, "dec")), ("hook", "h0"))
+    else:
+        handler = (("match", ("lit", b"Q", "str")),)
+    reasons = draw(st.sampled_from([("outofspace",), None]))
+    in_loop = draw(st.integers(0, 3)) == 0
+    tr = ("try", reasons, (("append", "s0", pat),) + after, handler)
+    if in_loop:
+        body = (("loop", None, (tr, ("match", ("lit", b",", "str")), ("delete", "s0"))),)
+    else:
+        body = (tr, ("match", ("lit", b".", "str")), ("hook", "h0"))
+    prog = _ir.Program([("str", "s0", size, term, None, False), ("int", "n0", False, None, 0)], ["h0"], [], ["Y0", "Y1"], [], body,
+                       [draw(st.sampled_from(["-O3", "-O3"] + list(OPT_LEVELS))), "-fyield-support"])
+    datas = []
+    for w in (word, word[:cap] + off + b"xy", word[:cap] + b"Q"):
+        for t in (b".", b"-.", b"!.", b",", b"xy.", b""):
+            datas.append(w + t + (word + b"," + word if in_loop else b""))
+    return prog, datas
